@@ -161,6 +161,47 @@ class WriterUnit(Unit):
             O(nme, c)
         return ex
 
+    @staticmethod
+    def _replay_prune():
+        """native: one prune that has to drop two or more files at once (a big record after small files; a restart with a smaller budget)"""
+        import logging, os, shutil, tempfile
+        logging.disable(logging.CRITICAL)
+        from openfilter.filter_runtime.rolllog import RollLog
+        obs = []
+
+        def state(d):
+            files = sorted(os.listdir(d))
+            return files, [open(os.path.join(d, f)).read().split('\n')[:-1] for f in files], sum(os.stat(os.path.join(d, f)).st_size for f in files)
+        for scenario in ('big record', 'smaller budget at restart'):
+            d = tempfile.mkdtemp(prefix='verif_c13p_')
+            try:
+                t = 1700000000.0
+                w = RollLog(d, 'txt', file_size=1, total_size=24 if scenario == 'big record' else 10 ** 6)
+                n = 5 if scenario == 'big record' else 8
+                for i in range(n):
+                    w.write(f'r{i:02d}', timestamp=t + i)           # 4 bytes per file
+                if scenario == 'big record':
+                    w.write('S' * 11, timestamp=t + n)            # 12 bytes: several old files must go at once
+                    w.write('r99', timestamp=t + n + 1)
+                    budget, want_tail = 24, [f'r{i:02d}' for i in range(n)] + ['S' * 11, 'r99']
+                else:
+                    w.close()
+                    w = RollLog(d, 'txt', file_size=1, total_size=12)
+                    budget, want_tail = 12, [f'r{i:02d}' for i in range(n)]
+                files, recs, total = state(d)
+                flat = [r for f in recs for r in f]
+                newest_size = os.stat(os.path.join(d, files[-1])).st_size if files else 0
+                if total > max(budget, newest_size):
+                    obs.append(f'{scenario}: {total} bytes on disk with a budget of {budget}: {flat}')
+                if not flat or flat != want_tail[-len(flat):]:
+                    obs.append(f'{scenario}: records on disk {flat} are not the newest of those written {want_tail} (only the oldest files may go, the newest never)')
+                w.close()
+            except Exception as e:
+                obs.append(f'{scenario}: {type(e).__name__}: {e}')
+            finally:
+                shutil.rmtree(d, ignore_errors=True)
+        return obs
+
     def replay(self, failure):
         import tempfile, shutil, os
         from openfilter.filter_runtime.rolllog import RollLog
@@ -176,6 +217,10 @@ class WriterUnit(Unit):
             log.close()
             lost = 6 - sum(c.count('record') for c in content)
             if lost == 0:
+                prune = self._replay_prune()
+                if prune:
+                    return {'confirmed': True, 'inputs': 'small files, then a record (or a smaller budget at restart) that makes ONE prune drop several files', 'observed': prune[:4],
+                            'required': 'after a write the files on disk total <= max(total_size, newest), the newest is never pruned, only the oldest files go'}
                 from replay_drivers import rolllog_history
                 return rolllog_history.search(200, 0)
             return {'confirmed': lost > 0, 'inputs': {'file_size': 1, 'writes': 6, 'timestamp': ts, 'solver_model': m},
